@@ -32,7 +32,7 @@ def run(pids=None, jobs=4):
                 return (m, "anchor-lost", "")
             s = s.replace(m["from"], m["to"])
             open(p, "w").write(s)
-            env = dict(os.environ, VF_REPO=d, VF_EVIDENCE_DIR=os.path.join(d, "ev"))
+            env = dict(os.environ, VF_REPO=d, VF_EVIDENCE_DIR=os.path.join(d, "ev"), VF_NO_DRIVER="1")
             r = subprocess.run([sys.executable, "-m", "vf.check", m["property"]], cwd=ROOT, env=env,
                                capture_output=True, text=True)
             return (m, {0: "survived", 1: "killed", 2: "undecided"}.get(r.returncode, "rc%d" % r.returncode), r.stdout[-600:])
